@@ -28,7 +28,7 @@ const rule = "a case is one logger life in a fresh process: 1-32 producer gorout
 	"initial levels from the -log/-plog flags, some phases with level changes racing with the producers), 96 call sites (directory x plain/f/tracer-method x severity), " +
 	"unique lines, runs of identical lines, A-B-A repeats, texts shared by goroutines, equal texts from different call sites, context tracers (0-6 lines, optionally collected by 3 goroutines); " +
 	"writer free-running or externally triggered (periods 0-20 ms, or withheld until > 1024 lines are queued, or never), adapter delayed or held inside Write until all producers are parked; " +
-	"Shutdown after all producers finished or after a PRNG-chosen number of returned calls. Families: free, free-hold, sched, sched-withheld, small, squeeze (GOMAXPROCS 1-2 + busy goroutines during Shutdown), twin (plain lines through a nil tracer and tracer submissions with the same call site and main text logged back to back, 1-3 goroutines, writer triggered only after everything is queued). " +
+	"Shutdown after all producers finished or after a PRNG-chosen number of returned calls. Families: free, free-hold, sched, sched-withheld, small, squeeze (GOMAXPROCS 1-2 + busy goroutines during Shutdown), twin (plain lines through a nil tracer and tracer submissions with the same call site and main text logged back to back, 1-3 goroutines, writer triggered only after everything is queued), idle (free-running writer; at every barrier the adapter is held inside the final Write of a batch while more lines are logged, then released, then an idle verdict from a goroutine dump). In 2 of 5 cases 2-3 goroutines call Shutdown concurrently. " +
 	"distinct = distinct scenario signatures (family, build, producers, lines, levels per phase, shutdown moment); non-trivial = at least 10 log calls and at least one line delivered"
 
 // functions whose races are about the buffer / wake-up protocol of the property
@@ -127,6 +127,18 @@ func main() {
 				}
 			}
 		}
+		// Free-running writer with the adapter held inside the final Write of a batch
+		// while more lines are logged, then an idle verdict (family idle; small cases).
+		if only == "" || only == "idle" {
+			for i := 0; i < cfg.N(48, 400); i++ {
+				add(genScenario(cfg, 300000+i, "plain", "idle"), fmt.Sprintf("plain-id%04d", i))
+			}
+			if cfg.BinRace != "" {
+				for i := 0; i < cfg.N(12, 100); i++ {
+					add(genScenario(cfg, 300000+i, "race", "idle"), fmt.Sprintf("race-id%04d", i))
+				}
+			}
+		}
 		if only == "" || only == "squeeze" {
 			for i := 0; i < nPlain*2; i++ {
 				add(genScenario(cfg, 100000+i, "plain", "squeeze"), fmt.Sprintf("plain-sq%04d", i))
@@ -196,6 +208,8 @@ func main() {
 		rep.Floor(rep.Counter("submissions_checked") >= 20, "submissions_checked=%d", rep.Counter("submissions_checked"))
 		rep.Floor(rep.Counter("cases_shutdown_with_lines_pending") >= 5, "cases_shutdown_with_lines_pending=%d", rep.Counter("cases_shutdown_with_lines_pending"))
 		rep.Floor(rep.Counter("twin_plain_and_submission_arrived_adjacent") >= 100, "twin_plain_and_submission_arrived_adjacent=%d", rep.Counter("twin_plain_and_submission_arrived_adjacent"))
+		rep.Floor(rep.Counter("idle_rounds_line_logged_during_final_write") >= 30 && rep.Counter("idle_points_judged") >= 60, "idle rounds=%d idle points=%d", rep.Counter("idle_rounds_line_logged_during_final_write"), rep.Counter("idle_points_judged"))
+		rep.Floor(rep.Counter("cases_concurrent_shutdown_calls_with_lines_pending") >= 20, "cases_concurrent_shutdown_calls_with_lines_pending=%d", rep.Counter("cases_concurrent_shutdown_calls_with_lines_pending"))
 		rep.Floor(rep.Counter("cases_shutdown_mid") >= 5, "cases_shutdown_mid=%d", rep.Counter("cases_shutdown_mid"))
 		rep.Floor(rep.Counter("lines_below_level") >= 1000 && rep.Counter("lines_must") >= 10000, "lines: must=%d below=%d", rep.Counter("lines_must"), rep.Counter("lines_below_level"))
 	}
